@@ -27,7 +27,7 @@ const PropertyInfo kInfo = {
     "C10", 14, 6, 6,
     "tape -> n from boundary table {1,2,3,4,5,8,16,32,64,128,200,253,254,255} or uniform 1..24 or uniform 1..255; t from {1,2,3,4,n,n-1,n-2,(n+1)/2} or uniform 1..n; "
     "32-byte secret: 01..20 / random / zero / 0xFF / one-hot / sparse; split coefficients from the interposed random_device (seeded stream, or all-zero, "
-    "or top coefficient zero, or all 0xFF); n = 255 is split in a forked child under a 2 s timeout (0.3 s once a timeout was seen in this process) and an RSS cap. "
+    "or top coefficient zero, or all 0xFF); n = 255 is split in a forked child under a 2 s CPU-time budget (0.3 s once a timeout was seen in this process; wall-clock time is never judged) and an RSS cap. "
     "Each record is one combine query on that split: exactly t distinct shares (first/last/random subset, any order); t..n distinct shares; "
     "fewer than t; a repeated index inside the first t (twin values: both all-zero / exact copy / own value / zero / random); a repeated index beyond the first t; "
     "a share with index 0; out-of-domain parameters (t = 0, n = 0, t > n) which must only not crash. "
@@ -195,7 +195,7 @@ struct Lagrange {
 // calling the code under test
 // ------------------------------------------------------------------------------------------------------
 struct SplitOut {
-    enum Kind { Ok, InvalidArg, OtherExc, UnknownExc, Timeout, Runaway, Crashed } kind = Ok;
+    enum Kind { Ok, InvalidArg, OtherExc, UnknownExc, Timeout, Runaway, Crashed, Starved } kind = Ok;
     std::vector<ShamirShare> shares;
     std::string what;
     double secs = 0;
@@ -238,6 +238,26 @@ std::size_t rss_mb(pid_t pid) {
     return static_cast<std::size_t>(res) * static_cast<std::size_t>(sysconf(_SC_PAGESIZE)) >> 20;
 }
 
+// CPU seconds (user + system) the child has consumed so far: a split that does not terminate burns CPU, a child that is
+// merely starved on a loaded machine does not -- wall-clock time is never the verdict.
+double cpu_secs(pid_t pid) {
+    char path[64];
+    std::snprintf(path, sizeof path, "/proc/%d/stat", static_cast<int>(pid));
+    FILE* f = std::fopen(path, "r");
+    if (!f) return 0;
+    char buf[1024];
+    std::size_t n = std::fread(buf, 1, sizeof buf - 1, f);
+    std::fclose(f);
+    buf[n] = 0;
+    const char* p = std::strrchr(buf, ')');   // the command name may contain blanks
+    if (!p) return 0;
+    unsigned long ut = 0, st = 0;
+    // after ")": state ppid pgrp session tty tpgid flags minflt cminflt majflt cmajflt utime stime
+    if (std::sscanf(p + 1, " %*c %*d %*d %*d %*d %*d %*u %*u %*u %*u %*u %lu %lu", &ut, &st) != 2) return 0;
+    return static_cast<double>(ut + st) / static_cast<double>(sysconf(_SC_CLK_TCK));
+}
+
+constexpr double kSplitWallCap = 120.0;      // a child that got less than the CPU budget within this wall time: inconclusive
 constexpr double kSplitTimeoutFirst = 2.0;   // >= 10^2 x the slowest legitimate split (n = t = 254: ~10 ms under ASan)
 constexpr double kSplitTimeoutAgain = 0.3;   // after a timeout was already seen in this process (shrinking re-runs)
 constexpr std::size_t kRssCapMb = 1536;      // a legitimate result is 255 x 33 bytes
@@ -307,14 +327,16 @@ SplitOut split_forked(const Secret& s, unsigned t, unsigned n) {
         std::size_t rss = rss_mb(pid);
         o.peak_rss_mb = std::max(o.peak_rss_mb, rss);
         if (rss > kRssCapMb) { o.kind = SplitOut::Runaway; break; }
-        if (o.secs > limit) { o.kind = SplitOut::Timeout; break; }
+        const double cpu = cpu_secs(pid);
+        if (cpu > limit) { o.kind = SplitOut::Timeout; o.secs = cpu; break; }
+        if (o.secs > kSplitWallCap) { o.kind = SplitOut::Starved; break; }
     }
     close(fds[0]);
     if (!eof) kill(pid, SIGKILL);
     int status = 0;
     while (waitpid(pid, &status, 0) < 0 && errno == EINTR) {}
     if (!eof) {
-        g_seen_split_timeout = true;
+        if (o.kind != SplitOut::Starved) g_seen_split_timeout = true;
         return o;
     }
     if (!(WIFEXITED(status) && WEXITSTATUS(status) == 0) || got.size() < 3) {
@@ -611,10 +633,11 @@ void run_case(Ctx& c) {
         case SplitOut::Timeout:
         case SplitOut::Runaway: {
             char buf[256];
-            std::snprintf(buf, sizeof buf, "split(secret, t=%u, n=%u) did not return: %s after %.2f s in a forked child (resident set reached %zu MB; a result is %u x 33 bytes)",
+            std::snprintf(buf, sizeof buf, "split(secret, t=%u, n=%u) did not return: %s after %.2f s of CPU time in a forked child (resident set reached %zu MB; a result is %u x 33 bytes)",
                           th, n, so.kind == SplitOut::Timeout ? "killed at the timeout" : "killed at the memory cap", so.secs, so.peak_rss_mb, n);
             c.fail(kSig255, buf);
         }
+        case SplitOut::Starved: c.label("split_child_starved_inconclusive"); return;
         case SplitOut::Crashed: c.fail("C10:split-crash", "split(t=" + std::to_string(th) + ", n=" + std::to_string(n) + ") in a forked child: " + so.what);
         default: c.fail("C10:split-throws", "split with valid parameters t=" + std::to_string(th) + " n=" + std::to_string(n) + " threw: " + so.what);
     }
